@@ -1,6 +1,7 @@
 //! E3 enumcheck: bounded-exhaustive input enumeration against the real dust_dds code.
 use vutil::{Args, Report};
 
+mod c14;
 mod c38;
 
 fn main() {
@@ -9,6 +10,7 @@ fn main() {
     if let Some(path) = &args.replay {
         let v = vutil::read_replay(path);
         let ok = match args.id.as_str() {
+            "C14" => c14::replay(&v),
             "C38" => c38::replay(&v),
             _ => {
                 eprintln!("no replay for {}", args.id);
@@ -18,6 +20,7 @@ fn main() {
         std::process::exit(if ok { 0 } else { 1 });
     }
     match args.id.as_str() {
+        "C14" => c14::run(&args, &mut rep),
         "C38" => c38::run(&args, &mut rep),
         other => {
             rep.machinery_error = Some(format!("enumcheck: unknown check {other}"));
